@@ -176,6 +176,9 @@ func (r *c15Run) e2eCall(op *c15Op, last bool) []string {
 	ok := err == nil
 	r.sent = append(r.sent, c15Sent{reqID: msg.Req.IRequestId, eid: sh.eid, ok: ok})
 	r.monSelected(op, before, ai, probe, "")
+	if probe {
+		r.pcall[ai] = before.st&(1<<uint(ai)) == 0 // blocked when it was handed out (status bits before the call)
+	}
 	r.shadowOutcome(ai, ok)
 	sel := fmt.Sprintf("SelPick %d %d", sh.eid, ai)
 	if probe {
